@@ -21,7 +21,7 @@ INFO = {
 U = {'s': 10 ** 9, 'ms': 10 ** 6, 'us': 10 ** 3, 'ns': 1}
 
 
-def h_counter(n, period, punit, unit, cls, tol='sym', f=('since', ('var', 'x'), ('prev', ('var', 'x')))):
+def h_counter(n, period, punit, unit, cls, tol='sym', f=('since', ('var', 'x'), ('prev', ('var', 'x'))), pre=None):
     f = T(f)
 
     def body(env):
@@ -43,6 +43,10 @@ def h_counter(n, period, punit, unit, cls, tol='sym', f=('since', ('var', 'x'), 
         ts = [env.real('t%d' % i) for i in range(n + 1)]
         w = dt.trace(env, vs, n + 1)
         if via == 'evaluate':
+            if pre is not None:
+                # an earlier data set evaluated on the same object: the counter afterwards describes the time column supplied LAST
+                ts0 = [env.real('u%d' % i) for i in range(pre + 1)]
+                dt.offline(s, dt.trace(env, vs, pre + 1, prefix='p'), pre + 1, ts0)
             got = [p[1] for p in dt.offline(s, w, n + 1, ts)]
         else:
             got = dt.online(s, w, n + 1, ts)
@@ -84,6 +88,11 @@ def obligations(tier, rng):
                       cls=cls, max_paths=50000, wall=1500))
         for tol in ('0', '1', '1/4'):
             out.append(ob('C13', 'counter', '%s/P=1s/unit=None/n=2/tol=%s' % (cls, tol), n=2, period=1, punit='s', unit=None, cls=cls, tol=tol))
+    # one offline object, two data sets: the counter read after the second evaluate() counts the gaps of the second time column
+    for cls in ('offline:evaluate', 'combined:evaluate'):
+        for pre, n in ([(1, 1), (2, 2)] if quick else [(1, 1), (2, 2), (1, 3), (3, 1), (0, 2)]):
+            out.append(ob('C13', 'counter', '%s/P=1s/unit=None/second-data-set/pre=%d/n=%d/tol=sym' % (cls, pre, n), n=n, period=1, punit='s', unit=None,
+                          cls=cls, pre=pre, max_paths=20000, wall=900))
     res_ = out
     from .. import core as _core
     res_ = res_ + _core.make_twins(res_, [('online:update/P=1s/unit=None/n=2/tol=sym', 'since')]) + _core.make_forkmode(res_, [])
